@@ -553,7 +553,9 @@ fn push_case<const U: usize, const R: usize>(t_lo: u64, t_hi: u64, q: usize, hdr
             bytes_stay = planted_ok(b.data(), cu, size, cv, true);
             lsn_range = m.block_last_lsn == Some(w.lsn) && m.block_first_lsn == if cfirst0.is_none() { Some(w.lsn) } else { cfirst0 };
         } else if expect == Target::FirstSpill {
-            structure = qlen == q && q == 0 && b.as_ref().as_ptr() != cur_ptr;
+            // total_blocks = blocks on disk + one id per QUEUED block (perform_flush computes its write offset from
+            // `total_blocks - queue.len()`): the block opened here is neither, it must not take an id yet
+            structure = qlen == q && q == 0 && b.as_ref().as_ptr() != cur_ptr && wh.total_blocks == tb0;
             bytes_stay = true;
             lsn_range = m.block_last_lsn == Some(w.lsn) && m.block_first_lsn == Some(w.lsn);
         } else {
